@@ -1,7 +1,7 @@
 """C06 — Modular<M>: representation invariant, overflow-freedom, value-preserving casts and
 congruence of new/+/-/neg/* for ALL moduli 2 <= M < 2^31 and ALL operands (proof of these clauses
 by parametric interval x congruence abstract interpretation).  DESIGN.md §4 C06."""
-from .. import util
+from .. import util, zones
 from ..absint import tstr, mk_int, subterms
 from ..core import Anchor
 from ..numeric import B, Dom, NumEval
@@ -486,6 +486,12 @@ def _families(col, crate, adt, targets, sfx, modes=None, assign_of=None, A=None)
                         got = want
                     if odd is None or got != want or not halves:
                         ok3, why3 = False, "loop body is not `if d odd { res *= a }; a *= a; d /= 2` (odd=%s, multiplications=%s, d'=%s)" % (odd, [(tstr(x), tstr(y)) for x, y in got], tstr(st.env.get(exp_l)))
+                    if not zones.entails(st.facts, "Ne", ph(exp_l), mk_int(0), I.tys) and not zones.entails(st.facts, "Gt", ph(exp_l), mk_int(0), I.tys):
+                        ok3, why3 = False, "a round of the loop runs without the fact d != 0 (the loop test has the wrong polarity)"
+                # ... and the loop is left exactly when the exponent is used up
+                for st in I.final_states:
+                    if any(e.kind == "loop" for e in st.event_list()) and not zones.entails(st.facts, "Eq", ph(exp_l), mk_int(0), I.tys) and not zones.entails(st.facts, "Le", ph(exp_l), mk_int(0), I.tys):
+                        ok3, why3 = False, "the loop is left on a path that does not establish d == 0: remaining bits of the exponent are dropped"
     if not ok3:
         sem = _pow_semantic(crate, powb)
         if sem is True:
